@@ -536,11 +536,12 @@ fn gen_one(rng: &mut impl Rng, g: &GenCfg, len: usize) -> Value {
     let np = rng.gen_range(2..=5usize);
     let nt = match class {
         "filter" | "filterg" => rng.gen_range(3..=5usize),
+        "fanout" => rng.gen_range(1..=2usize),
         _ => rng.gen_range(1..=3usize),
     };
     // mesh params: small so that low/high limits are actually hit with <= 5 peers
     let lo = rng.gen_range(1..=2usize);
-    let n = lo + rng.gen_range(0..=1usize);
+    let n = lo + rng.gen_range(0..=(if class == "fanout" { 2usize } else { 1usize }));
     let hi = n + rng.gen_range(0..=1usize).max(if n == lo { 1 } else { 0 });
     let omin = if rng.gen_bool(0.3) && lo >= 1 && n >= 2 { 1 } else { 0 }; // omin <= lo, omin <= n/2
     let mut explicit = vec![];
@@ -582,6 +583,17 @@ fn gen_one(rng: &mut impl Rng, g: &GenCfg, len: usize) -> Value {
     for p in 0..np {
         if rng.gen_bool(0.8) {
             connect(&mut ops, &mut open, &mut next_conn, rng, p, true);
+        }
+    }
+    if class == "fanout" {
+        // most peers subscribe to most topics, so that fanout sets have several members
+        for p in 0..np {
+            if !open[p].is_empty() {
+                let subs: Vec<Value> = (0..nt).filter(|_| rng.gen_bool(0.8)).map(|t| json!([t, true])).collect();
+                if !subs.is_empty() {
+                    ops.push(json!({"a": "rpc", "p": p, "subs": subs}));
+                }
+            }
         }
     }
     let any_topic = |rng: &mut dyn rand::RngCore| rng.gen_range(0..nt);
